@@ -394,7 +394,7 @@ def run(ctx):
     r0 = ctx.tlc("Session_MC", cfg, workers=1, timeout=300)
     if not r0.ok:
         raise vlib.Infra("Session_MC (universe listing) failed: " + r0.out[-800:])
-    universe = c11.parse_alphabet(r0.out, "UNIVERSE")
+    universe = [m for m in c11.parse_alphabet(r0.out, "UNIVERSE") if m["k"] != "conn"]   # a reconnect is not an input to a session
     inputs, contents = gen_inputs(universe, thorough, ctx.seed)
     configs = CONFIGS_ALL if thorough else CONFIGS_QUICK
     inp = os.path.join(ctx.scratch, "c13_in.ndjson")
@@ -443,7 +443,7 @@ def run(ctx):
         slim = [{k: r[k] for k in KEEP} for r in rs] + (pv if first else [])
         first = False
         vlib.write_ndjson(os.path.join(ctx.specdir, "c13_vectors.ndjson"), slim)
-        c = {"Validators": "TRUE" if val else "FALSE"}
+        c = {"Validators": "TRUE" if val else "FALSE", "TrackTok": "TRUE"}
         c.update(dev)
         c11.write_cfg(ctx, "Monitor_C13", c, ["INIT Init", "NEXT Next", "CHECK_DEADLOCK FALSE"])
         r2, fails, divs = vlib.run_vector_monitor(ctx, "Monitor_C13", "c13_vectors.ndjson", timeout=2400)
